@@ -17,10 +17,10 @@ import (
 // icmp is the DB's internal-key comparer, reached through the verif exports, as a comparer.Comparer.
 type icmp struct{ u comparer.Comparer }
 
-func (c icmp) Name() string                       { return "leveldb.InternalKeyComparator" }
-func (c icmp) Compare(a, b []byte) int            { return leveldb.VerifICompare(c.u, a, b) }
-func (c icmp) Separator(dst, a, b []byte) []byte  { return leveldb.VerifISeparator(c.u, a, b) }
-func (c icmp) Successor(dst, b []byte) []byte     { return leveldb.VerifISuccessor(c.u, b) }
+func (c icmp) Name() string                      { return "leveldb.InternalKeyComparator" }
+func (c icmp) Compare(a, b []byte) int           { return leveldb.VerifICompare(c.u, a, b) }
+func (c icmp) Separator(dst, a, b []byte) []byte { return leveldb.VerifISeparator(c.u, a, b) }
+func (c icmp) Successor(dst, b []byte) []byte    { return leveldb.VerifISuccessor(c.u, b) }
 
 // tblCase: parameters from which one table is regenerated deterministically.
 type tblCase struct {
